@@ -153,6 +153,51 @@ fn part_a(run: &mut Run, tier: Tier) {
   run.set("part_a_duplicates", json!({"documents": st, "reference_rejects": rj, "reference_accepts": ac, "rule_variants": n, "max_rules": maxlen}));
 }
 
+/// part A2: long documents (the duplicate scan is a whole-document pass: sorting, hashing or windowing it goes wrong only
+/// beyond some rule count): n distinct filler rules with one name defined twice at every pair of positions (i < j) and in
+/// every pair of assignment forms
+fn part_a2(run: &mut Run, tier: Tier) {
+  let sizes: Vec<usize> = match tier {
+    Tier::Quick => vec![8, 21, 22, 33],
+    Tier::Thorough => vec![8, 16, 17, 20, 21, 22, 32, 33, 64, 65, 129],
+  };
+  let forms: [(u8, &str); 2] = [(0, "= int"), (1, "/= tstr")];
+  let mut n_states = 0u64;
+  for &n in &sizes {
+    for i in 0..n {
+      for j in i + 1..n {
+        for (a1, b1) in forms {
+          for (a2, b2) in forms {
+            let mut text = String::new();
+            let mut starts = vec![];
+            for k in 0..n {
+              starts.push(text.len());
+              if k == i {
+                text.push_str(&format!("dup {b1}\n"));
+              } else if k == j {
+                text.push_str(&format!("dup {b2}\n"));
+              } else {
+                text.push_str(&format!("f{k} = {k}\n"));
+              }
+            }
+            let _ = a1;
+            let exp = if a2 == 0 { Some(("dup", j + 1, starts[j])) } else { None };
+            n_states += 1;
+            if let Some(v) = check_dup(&text, exp) {
+              run.viol(v);
+            }
+          }
+        }
+      }
+    }
+  }
+  run.states += n_states;
+  run.transitions += n_states;
+  run.traces += n_states;
+  run.nontrivial += n_states;
+  run.set("part_a2_long_documents", json!({"documents": n_states, "rule_counts": sizes}));
+}
+
 // ------------------------------------------------------------------------------ part B
 
 pub const PRELUDE: [&str; 40] = [
@@ -358,11 +403,13 @@ pub fn run(tier: Tier) -> i32 {
   let _g = silence_stderr();
   let mut run = Run::new("C12", tier, "model_checking");
   part_a(&mut run, tier);
+  part_a2(&mut run, tier);
   part_b(&mut run, tier);
   run.evaluations = run.states;
   run.rule = "Part A: state = a document of 1..4 (thorough 5) rules, each drawn from 32 variants (names a, b, $a, $$a x with/without <t> x '= type', '= (group)', \
     '/= type', '//= (group)'), all sequences enumerated; reference model: the first plain '=' whose name already has a definition or an increment is a duplicate, \
     otherwise the document is accepted; cddl_from_str must reject exactly then, the message must name that rule and the position must be its line and byte offset. \
+    Part A2: long documents of 8 / 21 / 22 / 33 (thorough up to 129) rules with one name defined twice at every pair of positions and in every pair of assignment forms. \
     Part B: state = a document with one reference hole filled: 34 syntactic positions (type, choice arm, array entry with/without occurrence, map value, \
     member-key type with and without cut, table key, bareword key [not a reference], generic argument of type and group rules, control argument, both range bounds, unwrap, \
     group-to-choice, tag content, non-literal tag number, inline group, group choice, nested map/array, parenthesised type, /= and //= rules, group rules, generic rule \
